@@ -69,6 +69,7 @@ DriveOut drive_reader(const Task &t, const Bytes &archive, const DriveOpts &o) {
 	src->skipfail = t.skipfail;
 	src->seekerr = t.seekerr;
 	src->skippast = t.skippast;
+	src->endless = t.endless;
 	src->task = t_task;
 	g_sim.ledger = o.ledger;
 	g_sim.fail_at = o.fail_alloc;
